@@ -81,6 +81,20 @@ Theorem C06_expression_value : forall debug facts describe (w0 : blanks) (e : Pa
     agrees r (denote (sem_expr e)).
 Proof. exact expression_value. Qed.
 
+(* Spelled out for two and for three operators between arbitrary operands: the second operator takes the middle operand exactly when
+   it binds tighter, otherwise the chain groups left to right; and "a - b * c - d" is ((a - (b * c)) - d). *)
+Theorem C06_two_operators : forall x w1 a1 t1 w1' y w2 a2 t2 w2' z,
+  sem_expr (Chain x (TCons w1 a1 t1 w1' y (TCons w2 a2 t2 w2' z TNil))) =
+    if aprio a1 <? aprio a2
+    then Bin (abinop a1) (sem_operand x) (Bin (abinop a2) (sem_operand y) (sem_operand z))
+    else Bin (abinop a2) (Bin (abinop a1) (sem_operand x) (sem_operand y)) (sem_operand z).
+Proof. exact two_operators. Qed.
+Theorem C06_sum_of_product : forall x w1 t1 w1' y w2 a2 t2 w2' z w3 t3 w3' v (s1 s3 : arith),
+  aprio s1 = 2 -> aprio s3 = 2 -> 2 < aprio a2 ->
+  sem_expr (Chain x (TCons w1 s1 t1 w1' y (TCons w2 a2 t2 w2' z (TCons w3 s3 t3 w3' v TNil)))) =
+    Bin (abinop s3) (Bin (abinop s1) (sem_operand x) (Bin (abinop a2) (sem_operand y) (sem_operand z))) (sem_operand v).
+Proof. exact sum_of_product. Qed.
+
 (* Blanks do not matter, with no bound: two query texts of numeric expressions that differ only in their blanks -- how many, of
    which kind, none at all where the lexer lets the token end, also at either end of the query ([skel_expr] forgets them) -- get
    answers that agree with the same exact value (or are both errors where it is undefined). *)
